@@ -38,6 +38,9 @@ def dispatch(pid, tier, replay):
     if pid == "C19":
         import fill_checks
         return fill_checks.c19(tier)
+    if pid == "C14":
+        import fill_checks
+        return fill_checks.c14(tier)
     raise common.MachineryError("no check for " + pid)
 
 
